@@ -290,10 +290,13 @@ class C11(PropCheck):
                 out.append({"k": "fill", "obj": 0, "exiting": False, "mgrs": mgrs, "where": "exitstack"})
         for k in (1, 2, 3):
             out.append({"k": "fill", "obj": 0, "exiting": False, "mgrs": [], "where": "tasks", "ntasks": k})
+        for order in (["a"], ["a", "b"], ["a", "b", "a"]):
+            for is_async in (False, True):
+                out.append({"k": "fill", "obj": 0, "exiting": False, "mgrs": [], "where": "rereg", "order": order, "async": is_async})
         return out
 
     def model_line(self, case):
-        if case["where"] in ("exitstack", "tasks"):
+        if case["where"] in ("exitstack", "tasks", "rereg"):
             return None
         return json.dumps({"p": "C11", "obj": case["obj"], "exiting": case["exiting"], "mgrs": case["mgrs"]})
 
@@ -319,6 +322,46 @@ class C11(PropCheck):
             except RuntimeError:
                 pass
             return lab.show(ctx, outcome)
+        if case["where"] == "rereg":
+            # the unwrap_context_generator hook for one generator function is registered again: the later registration applies
+            import contextlib
+
+            class Inner:
+                def __init__(s, tag):
+                    s.tag = tag
+
+                def __enter__(s):
+                    return s
+
+                def __exit__(s, *a):
+                    return False
+
+            a, b = Inner("first"), Inner("second")
+
+            def gen_fn():
+                yield
+
+            if case.get("async"):
+                async def gen_fn():      # noqa: F811
+                    yield
+                cm = contextlib.asynccontextmanager(gen_fn)()
+            else:
+                cm = contextlib.contextmanager(gen_fn)()
+            regs = []
+            for which in case["order"]:
+                target = a if which == "a" else b
+                ss.unwrap_context_generator.register(gen_fn)(lambda frame, context, t=target: (regs.append(t.tag), t)[1])
+            if case.get("async"):
+                step = cm.__aenter__()
+                try:
+                    step.send(None)
+                except StopIteration:
+                    pass
+            else:
+                cm.__enter__()
+            ctx = ss.Context(obj=cm, is_async=bool(case.get("async")))
+            ss.fill_context(ctx)
+            return f"rereg obj={getattr(ctx.obj, 'tag', type(ctx.obj).__name__)} calls={regs}"
         if case["where"] == "tasks":
             # a manager whose elaborate hook lists child tasks the way the Trio glue does (extract_child(task, for_task=True)):
             # stubs or full stacks according to recurse_child_tasks -- outside any extract as inside a default one
@@ -446,6 +489,12 @@ class C11(PropCheck):
         """The documented loop, read directly from the tables."""
         if not isinstance(real, str):
             return None
+        if case["where"] == "rereg":
+            last = "first" if case["order"][-1] == "a" else "second"
+            if real != f"rereg obj={last} calls=['{last}']":
+                return (f"unwrap_context_generator registered {len(case['order'])} times for one generator function (order {case['order']}): "
+                        f"observed [{real}]; the latest registration ({last}) is the one that applies")
+            return None
         if case["where"] == "tasks":
             d = json.loads(real[6:])
             k = case.get("ntasks", 2)
@@ -508,7 +557,7 @@ class C11(PropCheck):
         return None
 
     def stats(self, cases, reals):
-        d = {"outside": 0, "inside": 0, "frame": 0, "exitstack": 0, "tasks": 0, "exiting": 0, "guard": 0, "prune": 0, "raised": 0, "with_gcm": 0, "replaced": 0}
+        d = {"outside": 0, "inside": 0, "frame": 0, "exitstack": 0, "tasks": 0, "rereg": 0, "exiting": 0, "guard": 0, "prune": 0, "raised": 0, "with_gcm": 0, "replaced": 0}
         for c, r in zip(cases, reals):
             d[c["where"]] += 1
             d["exiting"] += c["exiting"]
